@@ -341,6 +341,94 @@ def render_case(data, ev, d, fails):
         ev.sample({"scenario": "render-shared", "source": src, "threads": nthreads, "preemptions": sch.preemptions, "choices": [c[1] for c in sch.choices][:60]}, "render")
 
 
+# ---- first-use initialisation under concurrent renders -------------------------
+class EchoCacheImpl:
+    """cache backend that never stores and echoes the arguments it is given into the output"""
+
+    pass_context = False
+
+    def __init__(self, cache):
+        self.cache = cache
+
+    def get_or_create(self, key, creation_function, **kw):
+        return "[%s|%s]" % (key, ",".join("%s=%r" % kv for kv in sorted(kw.items()))) + creation_function()
+
+    def set(self, key, value, **kw):
+        pass
+
+    def get(self, key, **kw):
+        return None
+
+    def invalidate(self, key, **kw):
+        pass
+
+
+def first_use_case(data, ev, d, fails):
+    """two or three threads render through ONE fresh lookup / Template for the first time: cached defs with their own
+    cache_* arguments, relative <%include> / <%inherit> / <%namespace file> from a sub-directory (same names also exist in
+    the root), inheritable namespaces. Every render must equal the same render run alone on a fresh lookup."""
+    import mako.cache
+    import mako.lookup
+    import mako.runtime
+    from mako.cache import register_plugin
+    from mako.lookup import TemplateLookup
+
+    k = next(_k)
+    register_plugin("vf_echo", "vf.props.c16", "EchoCacheImpl")
+    T = {
+        "/sub/page.html": ('<%inherit file="base.html"/><%namespace name="ns" file="lib.html"/>'
+                           '<%def name="item(n)" cached="True" cache_timeout="30" cache_region="short">item:${n}</%def>'
+                           'P(<%include file="part.html"/>|${ns.f(x)}|${item(x)}|${self.hns.g(x)})'),
+        "/sub/base.html": '<%namespace name="hns" file="lib.html" inheritable="True"/>SUBBASE[${next.body()}]',
+        "/sub/part.html": "SUBPART:${x}",
+        "/sub/lib.html": '<%def name="f(a)">subf(${a})</%def><%def name="g(a)">subg(${a})</%def>',
+        "/base.html": "ROOTBASE[${next.body()}]",
+        "/part.html": "ROOTPART:${x}",
+        "/lib.html": '<%def name="f(a)">rootf(${a})</%def><%def name="g(a)">rootg(${a})</%def>',
+    }
+
+    def fresh():
+        lk = TemplateLookup(cache_impl="vf_echo", cache_args={"type": "memory"})
+        for u, src in T.items():
+            lk.put_string(u, src)
+        return lk
+
+    nthreads = 2 + data[0] % 2
+    solo = []
+    for i in range(nthreads):
+        try:
+            solo.append(("ok", fresh().get_template("/sub/page.html").render_unicode(x=i)))
+        except Exception as e:
+            solo.append(("exc", type(e).__name__, str(e)[:100]))
+    lk = fresh()
+    files = {mako.runtime.__file__, mako.cache.__file__, mako.lookup.__file__}
+    mods = {"_sub_page_html", "_sub_base_html", "_sub_lib_html", "_sub_part_html"}
+    sch = S.Scheduler(S.ByteChooser(data[1:], switch_percent=10 + data[0] % 20), trace=lambda fn: fn in files or fn in mods, max_steps=400000)
+
+    def worker(i):
+        def run():
+            try:
+                return ("ok", lk.get_template("/sub/page.html").render_unicode(x=i))
+            except Exception as e:
+                return ("exc", type(e).__name__, str(e)[:100])
+        return run
+
+    case = {"part": "first-use", "data": list(data)}
+    try:
+        res, errs = sch.run([worker(i) for i in range(nthreads)])
+    except S.Deadlock as e:
+        fails.setdefault("first-use-deadlock", Failure(case, "deadlock: %s" % e, "first-use-deadlock"))
+        return
+    for i in range(nthreads):
+        if res.get(i) != solo[i]:
+            f = Failure(case, "thread %d rendered %r concurrently (first use of the lookup) but %r alone; %d preemptions" % (i, res.get(i), solo[i], sch.preemptions),
+                        "first-use-differs-from-solo")
+            fails.setdefault(f.key, f)
+    ev.case(key=[list(data[:1]), [c[1] for c in sch.choices]], nontrivial=sch.preemptions >= 1, labels=("first-use", "threads:%d" % nthreads))
+    if sch.preemptions >= 2:
+        ev.sample({"scenario": "first-use", "templates": T, "threads": nthreads, "preemptions": sch.preemptions, "solo": solo}, "first-use")
+
+
 # ---- shards --------------------------------------------------------------------
 KINDS = ["first-load-same", "different-uris", "modify-race", "failing-compile", "bounded", "bounded-vanish"]
 
@@ -388,6 +476,7 @@ def shard_random(task):
 
         core.hyp_search(st.binary(min_size=300, max_size=300), check, ev, seed, n, shrink=False)
         core.hyp_search(st.binary(min_size=900, max_size=900), lambda data: render_case(data, ev, d, fails), ev, seed + 1, nr, shrink=False)
+        core.hyp_search(st.binary(min_size=600, max_size=600), lambda data: first_use_case(data, ev, d, fails), ev, seed + 2, nr * 2, shrink=False)
     return ev, list(fails.values())
 
 
@@ -404,6 +493,13 @@ def run(ctx):
 def replay(case):
     core.setup_repo()
     with core.TempDir() as d:
+        if case.get("part") == "first-use":
+            ev = core.Evidence()
+            fails = {}
+            first_use_case(bytes(case["data"]), ev, d, fails)
+            for f in fails.values():
+                return f
+            return None
         if case.get("part") == "render":
             ev = core.Evidence()
             fails = {}
